@@ -214,3 +214,182 @@ fn str_fixpoint(n: usize) {
 pub(crate) fn h_str_fixpoint_2() { str_fixpoint(2); }
 pub(crate) fn h_str_fixpoint_3() { str_fixpoint(3); }
 pub(crate) fn h_str_fixpoint_4() { str_fixpoint(4); }
+
+// ------------------------------------------------------------------ C07 / C03: skipping of unknown elements
+// Tags are one-letter identifiers: 'U' = the unknown tag, 'S' / 'T' = tags of the enclosing block (stop list).
+// Identifiers inside the payload are *symbolic* letters, constrained only by the property's preconditions.
+
+fn push_ident(text: &mut String, alphabet: &[u8]) -> u8 {
+    let b = vrt_byte_from(alphabet);
+    text.push(b as char);
+    text.push(' ');
+    b
+}
+
+fn count_tokens(text: &str) -> usize {
+    crate::tokenizer::verif_h::tok_for_harness(text).map(|t| t.len()).unwrap_or(0)
+}
+
+/// one payload item; identifiers never reuse a tag of the enclosing block (precondition of C07)
+fn push_item(text: &mut String, allow_nested: bool) {
+    match vrt_choice(if allow_nested { 7 } else { 5 }) {
+        0 => text.push_str("1 "),
+        1 => text.push_str("\"s\" "),
+        2 => { push_ident(text, b"OXU"); }
+        3 => text.push_str("/* c */ "),
+        4 => text.push_str("-2.5 "),
+        5 => {
+            // nested unknown block with a symbolic tag (may even be the unknown tag itself)
+            text.push_str("/begin ");
+            let t = push_ident(text, b"XUO");
+            text.push_str("1 /end ");
+            text.push(t as char);
+            text.push(' ');
+        }
+        _ => {
+            text.push_str("/begin X /begin ");
+            let t = push_ident(text, b"YUX");
+            text.push_str("0x2 /end ");
+            text.push(t as char);
+            text.push_str(" /end X ");
+        }
+    }
+}
+
+/// U ++ R: a well-formed unknown element followed by something the enclosing block understands
+fn unknown_element(is_block: bool, nitems: usize) {
+    let mut consumed = String::new();
+    let mut urest = String::new();
+    if is_block {
+        consumed.push_str("/begin U ");
+        for _ in 0..nitems { push_item(&mut urest, true); }
+        urest.push_str("/end U ");
+    } else {
+        consumed.push_str("U ");
+        for _ in 0..nitems { push_item(&mut urest, false); }
+    }
+    let strict = vrt_any_bool();
+    let n_consumed = count_tokens(&consumed);
+    let mut upart = consumed.clone();
+    upart.push_str(&urest);
+    let n_u = count_tokens(&upart);
+    let mut text = upart.clone();
+    // R: a known tag (symbolic: either stop-list entry), /begin + known tag, or the parent's /end
+    match vrt_choice(4) {
+        0 => { push_ident(&mut text, b"ST"); text.push_str("1"); }
+        1 => { text.push_str("/begin "); let t = push_ident(&mut text, b"ST"); text.push_str("/end "); text.push(t as char); }
+        2 => text.push_str("/end P"),
+        _ => { push_ident(&mut text, b"ST"); }
+    }
+    let tokens = crate::tokenizer::verif_h::tok_for_harness(&text).unwrap();
+    let filedata = vec![text.clone()];
+    let filenames = vec![Filename::from("f")];
+    let mut log = Vec::new();
+    let r;
+    let pos;
+    {
+        let mut p = ParserState::new_internal(&tokens, &filedata, &filenames, &mut log, strict);
+        p.set_tokenpos(n_consumed);
+        r = p.handle_unknown_taggedstruct_tag(&ctx(), "U", is_block, &["S", "T"]);
+        pos = p.get_tokenpos();
+    }
+    vrt_cover(!strict, "non-strict run");
+    if strict {
+        match r {
+            Err(ParserError::UnknownSubBlock { tag, .. }) => vrt_check(tag == "U", "C07 strict mode rejects the input with an error naming the unknown element"),
+            _ => vrt_check(false, "C07 strict mode rejects an unknown element"),
+        }
+        vrt_check(log.is_empty(), "C07 strict mode logs nothing");
+    } else {
+        vrt_check(r.is_ok(), "C07 non-strict mode skips a well-formed unknown element");
+        vrt_check(log.len() == 1, "C07 skipping an unknown element produces exactly one warning");
+        vrt_check(pos <= tokens.len(), "C07 cursor stays inside the token list");
+        let mut expect = n_u;
+        if is_block {
+            vrt_check(pos == expect, "C07 after an unknown block the cursor is at the first token behind /end TAG");
+        } else {
+            // comments directly in front of the next known element may be left to the enclosing block
+            while expect > n_consumed && tokens[expect - 1].ttype == A2lTokenType::Comment && pos < expect {
+                expect -= 1;
+            }
+            vrt_check(pos == expect, "C07 after an unknown keyword the cursor is at the next known tag, /begin of a known tag, or the parent's /end");
+        }
+    }
+    vrt_observe_u64(pos as u64);
+}
+
+pub(crate) fn h_unknown_kw_0() { unknown_element(false, 0); }
+pub(crate) fn h_unknown_kw_1() { unknown_element(false, 1); }
+pub(crate) fn h_unknown_kw_2() { unknown_element(false, 2); }
+pub(crate) fn h_unknown_kw_3() { unknown_element(false, 3); }
+pub(crate) fn h_unknown_block_0() { unknown_element(true, 0); }
+pub(crate) fn h_unknown_block_1() { unknown_element(true, 1); }
+pub(crate) fn h_unknown_block_2() { unknown_element(true, 2); }
+pub(crate) fn h_unknown_block_3() { unknown_element(true, 3); }
+
+/// totality (C03): arbitrary lexeme soup after the unknown tag (identifiers symbolic over {U,S,O}), including end of
+/// input right after the tag; symbolic strictness
+fn push_soup(text: &mut String) {
+    match vrt_choice(6) {
+        0 => text.push_str("/begin "),
+        1 => text.push_str("/end "),
+        2 => { push_ident(text, b"USO"); }
+        3 => text.push_str("1 "),
+        4 => text.push_str("\"s\" "),
+        _ => text.push_str("/* c */ "),
+    }
+}
+
+fn unknown_soup(n: usize) {
+    let is_block = vrt_choice(2) == 1;
+    let strict = vrt_any_bool();
+    let mut text = String::from(if is_block { "/begin U " } else { "U " });
+    let n_consumed = if is_block { 2 } else { 1 };
+    for _ in 0..n { push_soup(&mut text); }
+    let tokens = crate::tokenizer::verif_h::tok_for_harness(&text).unwrap();
+    let filedata = vec![text.clone()];
+    let filenames = vec![Filename::from("f")];
+    let mut log = Vec::new();
+    let mut p = ParserState::new_internal(&tokens, &filedata, &filenames, &mut log, strict);
+    p.set_tokenpos(n_consumed);
+    let r = p.handle_unknown_taggedstruct_tag(&ctx(), "U", is_block, &["S"]);
+    let pos = p.get_tokenpos();
+    vrt_check(pos <= tokens.len(), "C03 cursor stays inside the token list");
+    if strict {
+        vrt_check(r.is_err(), "C06 strict mode never accepts an unknown element");
+    }
+    vrt_observe_bool(r.is_ok());
+    vrt_observe_u64(pos as u64);
+}
+pub(crate) fn h_unknown_soup_0() { unknown_soup(0); }
+pub(crate) fn h_unknown_soup_1() { unknown_soup(1); }
+pub(crate) fn h_unknown_soup_2() { unknown_soup(2); }
+pub(crate) fn h_unknown_soup_3() { unknown_soup(3); }
+pub(crate) fn h_unknown_soup_4() { unknown_soup(4); }
+
+/// get_next_tag_or_comment + get_line_offset on lexeme soups (cursor arithmetic, u32 line subtraction)
+fn next_tag_soup(n: usize) {
+    let mut text = String::new();
+    for _ in 0..n {
+        push_soup(&mut text);
+        if vrt_choice(2) == 1 { text.push_str("\n"); }
+    }
+    let tokens = crate::tokenizer::verif_h::tok_for_harness(&text).unwrap();
+    if tokens.is_empty() { return; }
+    let filedata = vec![text.clone()];
+    let filenames = vec![Filename::from("f")];
+    let mut log = Vec::new();
+    let mut p = ParserState::new_internal(&tokens, &filedata, &filenames, &mut log, false);
+    let start = vrt_any_usize();
+    vrt_assume(start <= tokens.len());
+    p.set_tokenpos(start);
+    let before = p.get_tokenpos();
+    match p.get_next_tag_or_comment(&ctx()) {
+        Ok(BlockContent::None) => vrt_check(p.get_tokenpos() == before, "C03 'no tag' leaves the cursor where it was"),
+        Ok(BlockContent::Comment(_, off)) => { vrt_check(p.get_tokenpos() == before + 1, "C03 a comment consumes one token"); vrt_observe_u64(off as u64); }
+        Ok(BlockContent::Block(_, is_block, off)) => { vrt_check(p.get_tokenpos() > before, "C03 a tag consumes input"); vrt_observe_u64(off as u64 + if is_block { 1000 } else { 0 }); }
+        Err(_) => vrt_observe_u64(999),
+    }
+}
+pub(crate) fn h_next_tag_soup_2() { next_tag_soup(2); }
+pub(crate) fn h_next_tag_soup_3() { next_tag_soup(3); }
